@@ -164,6 +164,8 @@ def play_graph(fggs, calls):
                 o = observe_graph(g)
                 try:
                     c.add_node(fggs.Node(fggs.NodeLabel('M'), id='copy-only'))
+                    c.add_edge(fggs.Edge(fggs.EdgeLabel('copy-only-label', [fggs.NodeLabel('M')], is_terminal=True), [list(c.nodes())[-1]], id='copy-only-edge'))
+                    c.ext = [list(c.nodes())[-1]]
                 except Exception:       # noqa
                     pass
                 if observe_graph(g) != o:
@@ -196,6 +198,8 @@ RULES = [   # (lhs label index into EDGE_LABELS (nonterminals 3,4), rhs spec)
     (3, {'nodes': [0, 1], 'edges': [(0, [0]), (1, [1])], 'ext': [0]}),  # uses f:(L) and f:(M) in one rhs (name clash inside the rule)
     (3, {'nodes': [1], 'edges': [], 'ext': [0]}),                       # lhs type (L) differs from rhs type (M): HRGRule raises
     (5, {'nodes': [], 'edges': [], 'ext': []}),                         # terminal lhs: HRGRule raises
+    (3, {'nodes': [0, 1], 'edges': [(4, [1])], 'ext': [0]}),            # lhs X:(L), rhs edge X:(M): the rule clashes with itself
+    (4, {'nodes': [1, 0], 'edges': [(3, [1]), (1, [0])], 'ext': [0]}),  # lhs X:(M), rhs edges X:(L) and f:(M)
 ]
 
 
@@ -257,6 +261,7 @@ def play_hrg(fggs, calls, fgg=False):
                     c.add_edge_label(fggs.EdgeLabel('copy-only', [], is_terminal=True))
                     for r in c.all_rules()[:1]:
                         r.rhs.add_node(fggs.Node(fggs.NodeLabel('M'), id='copy-only'))
+                        r.rhs.add_edge(fggs.Edge(fggs.EdgeLabel('copy-only-label', [fggs.NodeLabel('M')], is_terminal=True), [list(r.rhs.nodes())[-1]], id='copy-only-edge'))
                     if fgg:
                         for f in c.factors.values():
                             f.weights.physical.fill_(7.)
